@@ -234,7 +234,7 @@ def run(tier):
     base = rnd.sample(sk, 60) + gen.random_programs(40, R.seed + 7, gen.ALL_FEATURES - {'global'})
   else:
     sk3 = [p for p in gen.skeletons(3) if p.name.count('>') == 2]
-    base = sk + rnd.sample(sk3, 500) + gen.random_programs(500, R.seed + 7, gen.ALL_FEATURES - {'global'})
+    base = sk + rnd.sample(sk3, 150) + gen.random_programs(200, R.seed + 7, gen.ALL_FEATURES - {'global'})
   base += [gen.Prog(n, s, {'extra'}, C01.EXTRA_GLOBS.get(n)) for n, s in C01.EXTRA if 'global' not in n]
   progs = [adversarial(p, rnd) for p in base] + closure_programs()
   bounds = {'n': 3, 'len': 2}
